@@ -95,11 +95,12 @@ func (c *udpClient) reader() {
 
 func (c *udpClient) run() {
 	pos := 0
-	giveUp := 400 * time.Millisecond
+	giveUp := 800 * time.Millisecond
 	timeouts := 0
 	for _, b := range c.spec.bursts {
 		batch := c.spec.script[pos : pos+b]
 		pos += b
+		c.env.udpSem <- struct{}{}
 		for _, q := range batch {
 			c.ep.register(q)
 			if _, err := c.conn.WriteToUDPAddrPort(q.pkt, c.server); err != nil {
@@ -107,7 +108,9 @@ func (c *udpClient) run() {
 			}
 			c.env.sent(q)
 		}
-		if !waitAnswered(c.ep, batch, giveUp, nil) {
+		ok := waitAnswered(c.ep, batch, giveUp, nil)
+		<-c.env.udpSem
+		if !ok {
 			timeouts++
 			c.ep.mu.Lock()
 			for _, q := range batch {
@@ -118,7 +121,7 @@ func (c *udpClient) run() {
 			}
 			c.ep.mu.Unlock()
 			if timeouts > 4 {
-				giveUp = 60 * time.Millisecond
+				giveUp = 100 * time.Millisecond
 			}
 		}
 	}
